@@ -143,7 +143,7 @@ def run(ctx):
         "explanation": "PROVED (Coq, closed, over the hand-written model Model/Format.v of formatting.rs): " + PROVED +
                        "  VALIDATED ONLY (not proved): " + VALIDATED,
     })
-    ctx.level = "other"
+    ctx.level = "proof" if proved else "other"
     ctx.assumptions = ["the Coq model Model/Format.v is tied to formatting.rs by differential runs only (server vs extracted judge vs kernel judge)",
                        "table::build / table::analyze do not change ranges or structure of the tree the formatter reads (not modelled)",
                        "serde/lsp-types JSON mapping trusted"]
